@@ -164,6 +164,14 @@ class ExprMixin:
                     t = self.truth(v, p)
                 except Unsupported:
                     break
+                ts_ = z3.simplify(t) if not isinstance(v, VBool) or z3.is_true(t) or z3.is_false(t) else t
+                if (is_and and z3.is_false(ts_)) or ((not is_and) and z3.is_true(ts_)):
+                    # this operand decides the result whenever it is reached: the remaining operands are never evaluated
+                    if len(vals) == 1:
+                        return v
+                    if all(isinstance(w, VBool) for w in vals[:-1]) and isinstance(v, (VBool, VNone)):
+                        return VBool(not is_and)
+                    break
                 assumed.append(t if is_and else z3.Not(t))
             if len(vals) == len(e.values) and all(isinstance(v, (VBool,)) for v in vals):
                 ts = [self.truth(v, p) for v in vals]
@@ -461,6 +469,8 @@ class ExprMixin:
         ln = getattr(node, "lineno", 0)
         if isinstance(base, VOpt):
             raise Unsupported("subscript of Optional")
+        if isinstance(base, VDict):
+            return self.dict_lookup(base, idx, p, None, ln)
         if isinstance(base, VTuple) or (isinstance(base, VList) and base.items is not None):
             items = base.items
             k = self.const_int(self.as_int(idx))
@@ -693,7 +703,7 @@ class ExprMixin:
             if attr in base.fields:
                 return base.fields[attr]
             raise Unsupported(f"exception attribute {attr}")
-        if isinstance(base, (VBytes, VStr, VList, VSet)):
+        if isinstance(base, (VBytes, VStr, VList, VSet, VDict)):
             return VFunc("method", attr, base)
         if isinstance(base, VFunc) and base.kind == "builtin":
             return VFunc("builtin", f"{base.target}.{attr}")
@@ -743,10 +753,31 @@ class ExprMixin:
 
     # ------------------------------------------------------------------ misc expression kinds
     def ev_Lambda(self, e, p, module):
-        return VOpaque("lambda")
+        a = e.args
+        if a.vararg or a.kwarg or a.kwonlyargs or a.defaults or a.posonlyargs:
+            return VOpaque("lambda")
+        return VFunc("lambda", (e, module, dict(p.env)))
 
     def ev_Dict(self, e, p, module):
-        return VOpaque("dict")
+        items = []
+        for k, v in zip(e.keys, e.values):
+            if k is None:
+                return VOpaque("dict")
+            try:
+                kv = self.ev(k, p, module)
+            except Unsupported:
+                return VOpaque("dict")
+            if isinstance(kv, VInt) and z3.is_int_value(z3.simplify(kv.t)):
+                key = z3.simplify(kv.t).as_long()
+            elif isinstance(kv, VStr) and kv.lit is not None:
+                key = kv.lit
+            else:
+                return VOpaque("dict")
+            try:
+                items.append((key, self.ev(v, p, module)))
+            except Unsupported:
+                return VOpaque("dict")
+        return VDict(items)
 
     def ev_Starred(self, e, p, module):
         raise Unsupported("starred")
